@@ -93,7 +93,9 @@ def job(j):
             res['uq'] = {'n': len(basis), 'shape': list(M.shape), 'missing': missing,
                          'symmetric': bool(M.ndim == 2 and M.shape[0] == M.shape[1] and np.allclose(M, M.T, rtol=0, atol=1e-12)),
                          'min_eig': float(np.linalg.eigvalsh((M + M.T) / 2).min()) if M.ndim == 2 and M.shape[0] == M.shape[1] else None,
-                         'dup_basis': len(set(map(str, basis))) != len(basis)}
+                         'dup_basis': len(set(map(str, basis))) != len(basis),
+                         # the matrix exactly as the library object holds it (for the tie with Gen/UqMats.v)
+                         'mat_hex': [[float(v).hex() for v in row] for row in M.tolist()] if M.ndim == 2 else None}
         base = os.path.dirname(lib.path)
         with open(os.path.join(base, 'scheme.yaml')) as f:
             sd = yaml.load(f, Loader=yaml.SafeLoader)
